@@ -3,6 +3,7 @@
 package extendeddaemonsetreplicaset
 
 import (
+	"k8s.io/apimachinery/pkg/util/intstr"
 	"strconv"
 
 	autoscalingv1 "k8s.io/api/autoscaling/v1"
@@ -36,11 +37,16 @@ func ZZ_C18_ersSide() {
 func ZZ_C10_settingResolved() { zzErsSide("C10.resolved", 2) }
 
 func zzErsSide(prop string, n int) {
-	c, ds, rsNew, _ := zzStore(1)
+	c, ds, rsNew, _ := zzStore(2)
 	ds.Status.ActiveReplicaSet = rsNew.Name
+	five := intstr.FromInt(5) // both pods are created in the same sync
+	ds.Spec.Strategy.RollingUpdate.SlowStartAdditiveIncrease = &five
+	// node0 carries pool=a; node1, listed after it, carries no pool label: only a catch-all selector
+	// reaches it, and what applies to node0 must not rub off on it
 	c.Nodes[0].Labels = map[string]string{"pool": "a"}
 	rsNew.Spec.Template.Spec.Containers[0].Resources = corev1.ResourceRequirements{Requests: corev1.ResourceList{corev1.ResourceCPU: resource.MustParse("100m")}}
-	wantCPU, wantSetting := int64(100), ""
+	wantCPU := []int64{100, 100}
+	wantSetting := []string{"", ""}
 	for i := 0; i < n; i++ {
 		l := "s" + strconv.Itoa(i)
 		if !nondet.Bool(l + ".exists") {
@@ -50,65 +56,74 @@ func zzErsSide(prop string, n int) {
 		s := &datadoghqv1alpha1.ExtendedDaemonsetSetting{ObjectMeta: metav1.ObjectMeta{Name: l, Namespace: zzNS}}
 		s.Spec.Containers = []datadoghqv1alpha1.ExtendedDaemonsetSettingContainerSpec{{Name: "agent",
 			Resources: corev1.ResourceRequirements{Requests: corev1.ResourceList{corev1.ResourceCPU: *resource.NewMilliQuantity(cpu, resource.DecimalSI)}}}}
-		applies := true
+		applies := []bool{true, true}
+		none := func() { applies[0], applies[1] = false, false }
 		switch nondet.String(l+".status", "valid", "error", "") {
 		case "valid":
 			s.Status.Status = datadoghqv1alpha1.ExtendedDaemonsetSettingStatusValid
 		case "error":
 			s.Status.Status = datadoghqv1alpha1.ExtendedDaemonsetSettingStatusError
-			applies = false
+			none()
 		default:
-			applies = false
+			none()
 		}
 		switch nondet.String(l+".reference", "foo", "bar", "none") {
 		case "foo":
 			s.Spec.Reference = &autoscalingv1.CrossVersionObjectReference{Kind: "ExtendedDaemonSet", Name: zzEDSName}
 		case "bar":
 			s.Spec.Reference = &autoscalingv1.CrossVersionObjectReference{Kind: "ExtendedDaemonSet", Name: "bar"}
-			applies = false
+			none()
 		default:
-			applies = false
+			none()
 		}
 		if nondet.Bool(l + ".otherNamespace") {
 			s.Namespace = "ns2"
-			applies = false
+			none()
 		}
 		switch nondet.String(l+".selector", "pool=a", "pool=b", "all", "unusable") {
 		case "pool=a":
 			s.Spec.NodeSelector = metav1.LabelSelector{MatchLabels: map[string]string{"pool": "a"}}
+			applies[1] = false
 		case "pool=b":
 			s.Spec.NodeSelector = metav1.LabelSelector{MatchLabels: map[string]string{"pool": "b"}}
-			applies = false
+			none()
 		case "unusable":
 			// "a setting ... with an unusable selector is in error" (never valid): it must not influence
 			// anything, not even by making the sync fail
 			s.Spec.NodeSelector = metav1.LabelSelector{MatchExpressions: []metav1.LabelSelectorRequirement{{Key: "pool", Operator: metav1.LabelSelectorOpIn}}}
 			nondet.Assume(s.Status.Status != datadoghqv1alpha1.ExtendedDaemonsetSettingStatusValid)
-			applies = false
+			none()
 		}
 		c.Settings = append(c.Settings, s)
-		if applies && wantSetting == "" {
-			wantCPU, wantSetting = cpu, l
+		for k := 0; k < 2; k++ {
+			if applies[k] && wantSetting[k] == "" {
+				wantCPU[k], wantSetting[k] = cpu, l
+			}
 		}
 	}
 	_, err := zzReconcile(zzReconciler(c, false), zzNS, rsNew.Name)
 	nondet.Assert(prop+".noerror", err == nil)
-	var created *corev1.Pod
+	created := map[string]*corev1.Pod{}
 	for _, e := range c.Log {
 		if e.Kind == "Pod" && e.Verb == "create" {
-			created = e.Obj.(*corev1.Pod)
+			created[e.Node] = e.Obj.(*corev1.Pod)
 		}
 		if e.Kind == "ExtendedDaemonsetSetting" {
 			nondet.Assert(prop+".settings-read-only", e.Verb == "list" || e.Verb == "get")
 		}
 	}
-	nondet.Assert(prop+".pod-created", created != nil)
-	if created == nil {
+	nondet.Assert(prop+".pod-created", created[zzNodeName(0)] != nil && created[zzNodeName(1)] != nil)
+	if created[zzNodeName(0)] == nil || created[zzNodeName(1)] == nil {
 		return
 	}
-	q := created.Spec.Containers[0].Resources.Requests[corev1.ResourceCPU]
-	nondet.Assert(prop+".resources-from-the-one-applicable-setting", q.MilliValue() == wantCPU)
-	nondet.Observe("cpu", q.MilliValue())
-	nondet.Reach(prop+".second-setting-applies", wantSetting == "s1")
-	nondet.Reach(prop+".template-applies", wantSetting == "" && len(c.Settings) == 2)
+	for k := 0; k < 2; k++ {
+		q := created[zzNodeName(k)].Spec.Containers[0].Resources.Requests[corev1.ResourceCPU]
+		nondet.Assert(prop+".resources-from-the-one-applicable-setting", q.MilliValue() == wantCPU[k])
+		nondet.Assert(prop+".setting-label-of-the-applicable-setting", created[zzNodeName(k)].Labels[datadoghqv1alpha1.ExtendedDaemonSetSettingNameLabelKey] == wantSetting[k])
+	}
+	q0 := created[zzNodeName(0)].Spec.Containers[0].Resources.Requests[corev1.ResourceCPU]
+	nondet.Observe("cpu", q0.MilliValue())
+	nondet.Reach(prop+".second-setting-applies", wantSetting[0] == "s1")
+	nondet.Reach(prop+".template-applies", wantSetting[0] == "" && len(c.Settings) == 2)
+	nondet.Reach(prop+".setting-for-node0-only", wantSetting[0] != "" && wantSetting[1] == "")
 }
